@@ -467,11 +467,21 @@ def c19(kind, val, base):
     import copy
     E.reset()
     R.clear()
-    data0 = {0: [base, 2], 1: [base, 2], 2: {"k": base}, 3: {base, 2}, 4: D.Box(base), 5: [base, 2], 6: [base, 2], 7: [2, base]}[kind]
+    other0 = None
+    if kind == 8:
+        data0, other0 = [1, base], [1, base, val]
+    elif kind == 9:
+        data0, other0 = {"k": base}, {"k": val}
+    elif kind == 10:
+        import numpy as np
+        data0 = np.arange([4, 20000, 16384 + 5][base % 3])
+    else:
+        data0 = {0: [base, 2], 1: [base, 2], 2: {"k": base}, 3: {base, 2}, 4: D.Box(base), 5: [base, 2], 6: [base, 2], 7: [2, base]}[kind]
     before = copy.deepcopy(data0.v if kind == 4 else data0)
+    before_other = copy.deepcopy(other0)
     d = E.scratch()
     try:
-        t = D.Mutator(data=data0, kind=kind, val=val)
+        t = D.Mutator(data=data0, kind=kind, val=val, other=other0)
         cs = t._checksum
         out, err = call(t, cache_root=d)
         dirs = job_dirs(d)
@@ -479,7 +489,10 @@ def c19(kind, val, base):
         E.cleanup(d)
     T.reach()
     after = data0.v if kind == 4 else data0
-    changed = after != before
+    if kind == 10:
+        changed = bool((after != before).any())
+    else:
+        changed = after != before or other0 != before_other
     desc = "mutation kind %d val %d on %r" % (kind, val, before)
     if changed and err is None:
         return "%s: the input was changed to %r during execution and no error was reported" % (desc, after)
